@@ -461,7 +461,18 @@ func runIter(c Single) (trace, error) {
 			}
 			return n
 		}
-		next = wrap(iterator.Join(its...))
+		// (the variadic arguments are the caller's own slice: Join may read it, not write to it)
+		orig := append([]iterator.Iterator[int]{}, its...)
+		inner := wrap(iterator.Join(its...))
+		next = func() ([]int, bool) {
+			r, ok := inner()
+			for i := range its {
+				if its[i] != orig[i] {
+					return []int{-996}, true // Join modified the slice it was given
+				}
+			}
+			return r, ok
+		}
 	case "Runs":
 		outer := iterator.Runs[int](src, c.same)
 		run := 0
@@ -647,8 +658,18 @@ func runStream(c Single) (trace, error) {
 			}
 			return n
 		}
+		origS := append([]stream.Stream[int]{}, ss...)
 		s := stream.Join(ss...)
-		next, closer = wrap(s), s.Close
+		innerS := wrap(s)
+		next, closer = func() ([]int, bool) {
+			r, ok := innerS()
+			for i := range ss {
+				if ss[i] != origS[i] {
+					return []int{-996}, true // Join modified the slice it was given
+				}
+			}
+			return r, ok
+		}, s.Close
 	case "Runs":
 		outer := stream.Runs[int](src, c.same)
 		closer = outer.Close
@@ -884,6 +905,25 @@ func runReducer(c Single) (vk.Outcome, error) {
 		g0 := iterator.Equal[int]()
 		if gi != want || gx != want || g3 != want || !g1 || !g0 {
 			return out, vk.Violf("wrong-output", "Equal(%v,%v): iterator %v xslices %v 3-way %v 1-way %v 0-way %v want %v", in, c.Other, gi, gx, g3, g1, g0, want)
+		}
+		// an element type whose == is not reflexive: sequences holding a NaN are equal to nothing, not even
+		// to themselves - also when both operands are the very same slice
+		fl := make([]float64, len(in))
+		for i, x := range in {
+			fl[i] = float64(x)
+			if x == c.Mask%U {
+				fl[i] = math.NaN()
+			}
+		}
+		hasNaN := false
+		for _, x := range fl {
+			hasNaN = hasNaN || x != x
+		}
+		if sx, si := xslices.Equal(fl, fl), iterator.Equal[float64](iterator.Slice(fl), iterator.Slice(fl)); sx != !hasNaN || si != !hasNaN {
+			return out, vk.Violf("wrong-output", "Equal of a float sequence with itself (holds NaN: %v): xslices %v iterator %v, want %v", hasNaN, sx, si, !hasNaN)
+		}
+		if cl := append([]float64{}, fl...); xslices.Equal(fl, cl) != !hasNaN {
+			return out, vk.Violf("wrong-output", "Equal of a float sequence and its copy (holds NaN: %v) = %v", hasNaN, !(!hasNaN))
 		}
 	}
 	out.NonTrivial = len(in) >= 2 && (c.Comb != "Last" || c.N == 0 || c.N >= len(in)-1)
